@@ -288,7 +288,13 @@ func C19(r *core.Run) {
 	}
 	const T = 45000
 	spec := map[string]interface{}{"mode": "c19", "t_ms": T, "conc": r.Pick(8, 16), "backends": c19Backends, "exchanges": exs, "chains": chains, "blobs": blobs, "blob_big_all_stacks": !r.Quick(), "faults": faults}
-	res := e3Run(r, bin, "c19", spec, time.Duration(r.Pick(300, 1200))*time.Second)
+	// Megabyte payloads under the race detector are dominated by shadow-memory page faults; fewer GC cycles and,
+	// in the quick tier, fewer threads contending in the kernel keep the wall time steady on a busy machine.
+	env := []string{"GOGC=400"}
+	if r.Quick() {
+		env = append(env, "GOMAXPROCS=8")
+	}
+	res := e3Run(r, bin, "c19", spec, time.Duration(r.Pick(300, 1200))*time.Second, env...)
 
 	byTok := map[string]*c19Exchange{}
 	for i := range exs {
